@@ -1,9 +1,13 @@
 import EdpVerif.Basic.Bytes
 import EdpVerif.Basic.Utf8
 import EdpVerif.Spec.Handshake
+import EdpVerif.Generated.Misc
 /-
-Model of crates/edp_client/src/{handshake.rs, state_machine.rs, digest.rs} — function by function, bug for bug.
+Model of crates/edp_client/src/{handshake.rs, state_machine.rs, digest.rs, flags.rs} — function by function.
 (`Spec.Handshake` is imported only for the API vocabulary `Op`; nothing below uses a Spec layout or parser.)
+The message tags, the version of the old send_name and the capability-flag constants are NOT transcribed here: they
+are the values `tools/gen_misc.py` extracts from handshake.rs / state_machine.rs / flags.rs on every run
+(`Generated/Misc.lean`).
 
   Rust                                              Lean
   bytes::Buf::get_u8 / get_u16/get_u32/get_u64       getU8 / getN (panic on short input, as `bytes` does)
@@ -16,11 +20,50 @@ Model of crates/edp_client/src/{handshake.rs, state_machine.rs, digest.rs} — f
   ChallengeAck::new+encode / decode / verify        encodeAck / decodeAck / (digest equality)
   digest::compute_digest                            parameter `dg : cookie → challenge → 16 bytes`
   digest::generate_challenge                        the `chal` argument of `Op.handleChallenge`
-  HandshakeStateMachine::{begin_connect, …}         step
+  HandshakeStateMachine::{begin_connect, …}         step (`expect_state` = the leading state test, `fail` = `state := failed`)
+  DistributionFlags::{DEFAULT, DEFAULT_HIDDEN, …}   flagDefault, flagDefaultHidden, flagMandatory, flagConst
 -/
 namespace Edp.Impl.Handshake
 open Edp
 open Edp.Spec.Handshake (Op)
+
+/-! ### constants regenerated from the source -/
+
+/-- `HANDSHAKE_TAG_N` -/
+def tagN : UInt8 := UInt8.ofNat Gen.HANDSHAKE_TAG_N
+/-- `HANDSHAKE_TAG_N_OLD` -/
+def tagNOld : UInt8 := UInt8.ofNat Gen.HANDSHAKE_TAG_N_OLD
+/-- `HANDSHAKE_TAG_S` -/
+def tagS : UInt8 := UInt8.ofNat Gen.HANDSHAKE_TAG_S
+/-- `HANDSHAKE_TAG_A` -/
+def tagA : UInt8 := UInt8.ofNat Gen.HANDSHAKE_TAG_A
+/-- the literal `b'r'` in `ChallengeReply::encode` / `decode` -/
+def tagR : UInt8 := UInt8.ofNat Gen.HANDSHAKE_TAG_R_LITERAL
+/-- the literal `b'c'` in `prepare_complement` -/
+def tagC : UInt8 := UInt8.ofNat Gen.HANDSHAKE_TAG_C_LITERAL
+/-- `PROTOCOL_VERSION_5` -/
+def version5 : Nat := Gen.PROTOCOL_VERSION_5
+
+/-- `DistributionFlags::<NAME>.bits()` -/
+def flagConst (name : String) : Option Nat := Gen.DIST_FLAGS.lookup name
+/-- `DistributionFlags::MANDATORY_OTP26` -/
+def flagMandatory : Nat := Gen.FLAGSET_MANDATORY_OTP26
+/-- `DistributionFlags::DEFAULT` (`default()`, `default_otp26()`: what `ConnectionConfig::new` announces) -/
+def flagDefault : Nat := Gen.FLAGSET_DEFAULT
+/-- `DistributionFlags::DEFAULT_HIDDEN` (`default_hidden()`: what `ConnectionConfig::new_hidden` announces) -/
+def flagDefaultHidden : Nat := Gen.FLAGSET_DEFAULT_HIDDEN
+
+/-- a flag set of flags.rs evaluated from the member names its definition lists (members may be sets themselves) -/
+def evalFlagSet (fuel : Nat) (name : String) : Nat :=
+  match fuel with
+  | 0 => 0
+  | fuel + 1 =>
+    match Gen.DIST_FLAGS.lookup name with
+    | some v => v
+    | none =>
+      match Gen.DIST_FLAG_SETS.lookup name with
+      | some ms => ms.foldl (fun acc m => acc ||| evalFlagSet fuel m) 0
+      | none => 0
 
 /-- error classes (one per `Error` variant the handshake code can return) -/
 inductive Err
@@ -103,18 +146,18 @@ def Status.code : Status → Nat
 /-- `SendName::encode` (new format) -/
 def encodeSendName (m : NameMsg) : HRes Bytes :=
   if m.name.length > 255 then .err .nameTooLong
-  else .ok (be16 (1 + 8 + 4 + 2 + m.name.length) ++ [78] ++ be64 m.flags ++ be32 m.creation ++ be16 m.name.length ++ m.name)
+  else .ok (be16 (1 + 8 + 4 + 2 + m.name.length) ++ [tagN] ++ be64 m.flags ++ be32 m.creation ++ be16 m.name.length ++ m.name)
 
 /-- `SendName::encode_old` -/
 def encodeSendNameOld (m : NameMsg) : HRes Bytes :=
   if m.name.length > 255 then .err .nameTooLong
-  else .ok (be16 (1 + 2 + 4 + m.name.length) ++ [110] ++ be16 5 ++ be32 (m.flags % 4294967296) ++ m.name)
+  else .ok (be16 (1 + 2 + 4 + m.name.length) ++ [tagNOld] ++ be16 version5 ++ be32 (m.flags % 4294967296) ++ m.name)
 
 /-- `SendName::decode` -/
 def decodeSendName (data : Bytes) : HRes NameMsg :=
   if data.length < 1 then .err .malformed else
   (getU8 data).bind fun (tag, buf) =>
-  if tag ≠ 78 then .err .malformed else
+  if tag ≠ tagN then .err .malformed else
   if buf.length < 8 + 4 + 2 then .err .malformed else
   (getN 8 buf).bind fun (flags, b1) =>
   (getN 4 b1).bind fun (creation, b2) =>
@@ -123,14 +166,22 @@ def decodeSendName (data : Bytes) : HRes NameMsg :=
   (sliceTo nlen b3).bind fun name =>
   if validUtf8 name then .ok ⟨flags, creation, name⟩ else .err .malformed
 
-/-- `StatusMessage::encode`: writes the discriminant as a u16 (not the text the decoder expects) -/
-def encodeStatus (s : Status) : Bytes := be16 3 ++ [115] ++ be16 s.code
+/-- `impl Display for Status` (as UTF-8 bytes) -/
+def Status.text : Status → Bytes
+  | .ok => [111, 107]
+  | .okSimultaneous => [111, 107, 95, 115, 105, 109, 117, 108, 116, 97, 110, 101, 111, 117, 115]
+  | .nok => [110, 111, 107]
+  | .notAllowed => [110, 111, 116, 95, 97, 108, 108, 111, 119, 101, 100]
+  | .alive => [97, 108, 105, 118, 101]
+
+/-- `StatusMessage::encode`: length of tag plus text, the tag, the status as `Display` prints it -/
+def encodeStatus (s : Status) : Bytes := be16 (1 + s.text.length) ++ [tagS] ++ s.text
 
 /-- `StatusMessage::decode` -/
 def decodeStatus (data : Bytes) : HRes Status :=
   if data.length < 1 then .err .malformed else
   (getU8 data).bind fun (tag, buf) =>
-  if tag ≠ 115 then .err .malformed else
+  if tag ≠ tagS then .err .malformed else
   if !validUtf8 buf then .err .malformed
   else if buf = [111, 107] then .ok .ok
   else if buf = [111, 107, 95, 115, 105, 109, 117, 108, 116, 97, 110, 101, 111, 117, 115] then .ok .okSimultaneous
@@ -142,14 +193,14 @@ def decodeStatus (data : Bytes) : HRes Status :=
 /-- `Challenge::encode` -/
 def encodeChallenge (m : ChallengeMsg) : HRes Bytes :=
   if m.name.length > 255 then .err .nameTooLong
-  else .ok (be16 (1 + 8 + 4 + 4 + 2 + m.name.length) ++ [78] ++ be64 m.flags ++ be32 m.challenge ++ be32 m.creation
+  else .ok (be16 (1 + 8 + 4 + 4 + 2 + m.name.length) ++ [tagN] ++ be64 m.flags ++ be32 m.challenge ++ be32 m.creation
             ++ be16 m.name.length ++ m.name)
 
 /-- `Challenge::decode` -/
 def decodeChallenge (data : Bytes) : HRes ChallengeMsg :=
   if data.length < 1 then .err .malformed else
   (getU8 data).bind fun (tag, buf) =>
-  if tag ≠ 78 then .err .malformed else
+  if tag ≠ tagN then .err .malformed else
   if buf.length < 8 + 4 + 4 + 2 then .err .malformed else
   (getN 8 buf).bind fun (flags, b1) =>
   (getN 4 b1).bind fun (chal, b2) =>
@@ -161,25 +212,25 @@ def decodeChallenge (data : Bytes) : HRes ChallengeMsg :=
 
 /-- `ChallengeReply::encode` of `ChallengeReply { challenge, digest }` -/
 def encodeReply (challenge : Nat) (digest : Bytes) : Bytes :=
-  be16 21 ++ [114] ++ be32 challenge ++ digest
+  be16 21 ++ [tagR] ++ be32 challenge ++ digest
 
 /-- `ChallengeReply::decode` -/
 def decodeReply (data : Bytes) : HRes (Nat × Bytes) :=
   if data.length < 1 then .err .malformed else
   (getU8 data).bind fun (tag, buf) =>
-  if tag ≠ 114 then .err .malformed else
+  if tag ≠ tagR then .err .malformed else
   if buf.length < 4 + 16 then .err .malformed else
   (getN 4 buf).bind fun (chal, b1) =>
   (copy16 b1).bind fun (d, _) => .ok (chal, d)
 
 /-- `ChallengeAck::encode` -/
-def encodeAck (digest : Bytes) : Bytes := be16 17 ++ [97] ++ digest
+def encodeAck (digest : Bytes) : Bytes := be16 17 ++ [tagA] ++ digest
 
 /-- `ChallengeAck::decode` -/
 def decodeAck (data : Bytes) : HRes Bytes :=
   if data.length < 1 then .err .malformed else
   (getU8 data).bind fun (tag, buf) =>
-  if tag ≠ 97 then .err .malformed else
+  if tag ≠ tagA then .err .malformed else
   if buf.length < 16 then .err .malformed else
   (copy16 buf).bind fun (d, _) => .ok d
 
@@ -221,43 +272,55 @@ def Out.isErr : Out → Bool
   | .err _ => true
   | _ => false
 
-/-- one public method call, exactly as written in state_machine.rs (`dg` is `digest::compute_digest`) -/
+/-- one public method call, exactly as written in state_machine.rs (`dg` is `digest::compute_digest`).
+Every method starts with `expect_state(<the state the previous step leaves>, _)?` — an `InvalidStateTransition` that
+changes nothing; `self.fail(e)` sets `Failed` and hands the error on. -/
 def step (cfg : Cfg) (dg : Bytes → Nat → Bytes) (s : State) : Op → State × Out
   | .beginConnect =>
     if s.state ≠ .disconnected then (s, .err .invalidTransition)
     else ({ s with state := .connecting }, .unit)
   | .prepareSendName =>
+    if s.state ≠ .connecting then (s, .err .invalidTransition) else
     -- state = SendingName; encode_old()?; state = AwaitingStatus
     match encodeSendNameOld ⟨cfg.flags, cfg.creation, cfg.name⟩ with
     | .ok b => ({ s with state := .awaitingStatus }, .bytes b)
     | .err e => ({ s with state := .sendingName }, .err e)
     | .panic => ({ s with state := .sendingName }, .panic)
   | .handleStatus data =>
+    if s.state ≠ .awaitingStatus then (s, .err .invalidTransition) else
     match decodeStatus data with
-    | .ok st => if st.isOk then (s, .unit) else (s, .err .refused)
-    | .err e => (s, .err e)
+    | .ok st =>
+      if st.isOk then ({ s with state := .awaitingChallenge }, .unit)
+      else ({ s with state := .failed }, .err .refused)
+    | .err e => ({ s with state := .failed }, .err e)
     | .panic => (s, .panic)
   | .prepareComplement =>
-    (s, .bytes (be16 9 ++ [99] ++ be32 (cfg.flags / 4294967296) ++ be32 cfg.creation))
+    if s.state ≠ .awaitingChallenge then (s, .err .invalidTransition) else
+    (s, .bytes (be16 9 ++ [tagC] ++ be32 (cfg.flags / 4294967296) ++ be32 cfg.creation))
   | .handleChallenge data chal =>
-    -- state = AwaitingChallenge; decode()?; negotiated, their, our
+    if s.state ≠ .awaitingChallenge then (s, .err .invalidTransition) else
+    -- decode().map_err(fail)?; negotiated, their, our; state = SendingChallengeReply
     match decodeChallenge data with
-    | .ok m => ({ state := .awaitingChallenge, our := some chal, their := some m.challenge,
+    | .ok m => ({ state := .sendingChallengeReply, our := some chal, their := some m.challenge,
                   neg := some (m.flags &&& cfg.flags) }, .unit)
-    | .err e => ({ s with state := .awaitingChallenge }, .err e)
-    | .panic => ({ s with state := .awaitingChallenge }, .panic)
+    | .err e => ({ s with state := .failed }, .err e)
+    | .panic => (s, .panic)
   | .prepareChallengeReply =>
-    -- state = SendingChallengeReply; our?; their?; encode; state = AwaitingChallengeAck
+    if s.state ≠ .sendingChallengeReply then (s, .err .invalidTransition) else
+    -- our?; their?; encode; state = AwaitingChallengeAck
     match s.our, s.their with
     | some o, some t => ({ s with state := .awaitingChallengeAck }, .bytes (encodeReply o (dg cfg.cookie t)))
-    | _, _ => ({ s with state := .sendingChallengeReply }, .err .stateMsg)
+    | _, _ => (s, .err .stateMsg)
   | .handleChallengeAck data =>
+    if s.state ≠ .awaitingChallengeAck then (s, .err .invalidTransition) else
     match decodeAck data with
     | .ok d =>
       match s.our with
       | none => (s, .err .stateMsg)
-      | some o => if d = dg cfg.cookie o then ({ s with state := .connected }, .unit) else (s, .err .auth)
-    | .err e => (s, .err e)
+      | some o =>
+        if d = dg cfg.cookie o then ({ s with state := .connected }, .unit)
+        else ({ s with state := .failed }, .err .auth)
+    | .err e => ({ s with state := .failed }, .err e)
     | .panic => (s, .panic)
   | .disconnect => (⟨.disconnected, none, none, none⟩, .unit)
 
